@@ -131,7 +131,7 @@ RL_BIND = (" Level A is the dense sequence the encoding denotes (spec/abs/RunLen
            "value set per dtype (hence every run layout and every relative alignment of two operands' run boundaries) x the argument grammar; every claimed case "
            "state is executed against the real classes; seeded drivers add longer arrays, all dtypes and NaN, judged by TLC (Trace_RL).")
 
-ENC_VERDICTS = ("inconsistent-encoding", "not-canonical", "adjacent-equal-runs", "lock-step")
+ENC_VERDICTS = ("inconsistent-encoding", "not-canonical", "adjacent-equal-runs", "lock-step", "operand-modified")
 
 
 def c14():
